@@ -446,6 +446,20 @@ def norm_facts(node, stop=None):
     return out
 
 
+def norm_fact_nodes(node, stop=None):
+    """facts_at(node) as a list of (expression node, polarity) with negations folded into the polarity (see norm_facts)."""
+    neg = {ast.NotEq: ast.Eq, ast.NotIn: ast.In, ast.IsNot: ast.Is}
+    out = []
+    for e, pol in facts_at(node, stop):
+        while isinstance(e, ast.UnaryOp) and isinstance(e.op, ast.Not):
+            e, pol = e.operand, not pol
+        if isinstance(e, ast.Compare) and len(e.ops) == 1 and type(e.ops[0]) in neg:
+            e = ast.copy_location(ast.Compare(left=e.left, ops=[neg[type(e.ops[0])]()], comparators=e.comparators), e)
+            pol = not pol
+        out.append((e, pol))
+    return out
+
+
 def holds_at(node, cond_src, stop=None):
     """Is the condition (source text) among the facts that hold at `node`?"""
     return (CT(cond_src), True) in norm_facts(node, stop)
@@ -514,3 +528,122 @@ def cond_blocks(f, loop, cond_texts, target):
         if not reach:
             return n
     return None
+
+
+# ---- string building in one form --------------------------------------------------------------------------------------
+import string as _string
+
+
+def _fmt_parts(tmpl):
+    """[(literal, field or None)] of a format template with plain auto-numbered fields only, else None"""
+    out = []
+    try:
+        for lit, field, spec, conv in _string.Formatter().parse(tmpl):
+            if field is None:
+                out.append((lit, None))
+            elif field == "" and not spec and not conv:
+                out.append((lit, ""))
+            else:
+                return None
+    except ValueError:
+        return None
+    return out
+
+
+def str_parts(e):
+    """The string `e` builds, as a list of parts - str literals and expression nodes - for concatenations (+), f-strings
+    and "..{}..".format(..) with plain fields; None when `e` is not such a construction."""
+    if isinstance(e, ast.Constant) and isinstance(e.value, str):
+        return [e.value]
+    if isinstance(e, ast.BinOp) and isinstance(e.op, ast.Add):
+        l, r = str_parts(e.left), str_parts(e.right)
+        if l is None and r is None:
+            return None
+        return (l if l is not None else [e.left]) + (r if r is not None else [e.right])
+    if isinstance(e, ast.JoinedStr):
+        out = []
+        for v in e.values:
+            if isinstance(v, ast.Constant):
+                out.append(str(v.value))
+            elif isinstance(v, ast.FormattedValue) and v.format_spec is None and v.conversion == -1:
+                out.extend(str_parts(v.value) or [v.value])
+            else:
+                return None
+        return out
+    if isinstance(e, ast.Call) and isinstance(e.func, ast.Attribute) and e.func.attr == "format" and isinstance(e.func.value, ast.Constant) \
+            and isinstance(e.func.value.value, str) and not e.keywords:
+        fp = _fmt_parts(e.func.value.value)
+        if fp is None or sum(1 for _, f in fp if f is not None) != len(e.args):
+            return None
+        out, i = [], 0
+        for lit, f in fp:
+            if lit:
+                out.append(lit)
+            if f is not None:
+                out.extend(str_parts(e.args[i]) or [e.args[i]])
+                i += 1
+        return out
+    return None
+
+
+class _NormStr(ast.NodeTransformer):
+    def generic_visit(self, node):
+        parts = str_parts(node) if isinstance(node, (ast.BinOp, ast.JoinedStr, ast.Call)) else None
+        if parts is not None and any(isinstance(p_, str) for p_ in parts):
+            tmpl, args = "", []
+            for p_ in parts:
+                if isinstance(p_, str):
+                    tmpl += p_.replace("{", "{{").replace("}", "}}")
+                else:
+                    tmpl += "{}"
+                    args.append(self.visit(p_))
+            if not args:
+                return ast.copy_location(ast.Constant(value=tmpl.replace("{{", "{").replace("}}", "}")), node)
+            new = ast.Call(func=ast.Attribute(value=ast.Constant(value=tmpl), attr="format", ctx=ast.Load()), args=args, keywords=[])
+            return ast.fix_missing_locations(ast.copy_location(new, node))
+        return super().generic_visit(node)
+
+
+def norm_strings(node):
+    """copy of `node` in which every string built by +, f-string or plain .format is written "template".format(holes)"""
+    from ..flow import clone
+    return _NormStr().visit(clone(node))
+
+
+def implied_facts(f, node, stop=None):
+    """norm_facts(node) plus what a None test on a local implies about how the local was computed: when `x is not None`
+    holds at `node` and the only definition of x reaching it is `x = None if c else e` (or `e if c else None`), then c is
+    false (true) there; conjunctions / disjunctions are split where the polarity allows."""
+    out = set(norm_facts(node, stop))
+    flow = flow_of(f)
+
+    def add(e, pol):
+        while isinstance(e, ast.UnaryOp) and isinstance(e.op, ast.Not):
+            e, pol = e.operand, not pol
+        if isinstance(e, ast.BoolOp) and ((isinstance(e.op, ast.Or) and not pol) or (isinstance(e.op, ast.And) and pol)):
+            for v in e.values:
+                add(v, pol)
+            return
+        neg = {ast.NotEq: ast.Eq, ast.NotIn: ast.In, ast.IsNot: ast.Is}
+        if isinstance(e, ast.Compare) and len(e.ops) == 1 and type(e.ops[0]) in neg:
+            e = ast.Compare(left=e.left, ops=[neg[type(e.ops[0])]()], comparators=e.comparators)
+            pol = not pol
+        out.add((CT(U(e)), pol))
+
+    for e, pol in norm_fact_nodes(node, stop):
+        if isinstance(e, ast.Compare) and len(e.ops) == 1 and isinstance(e.ops[0], ast.Is) and isinstance(e.left, ast.Name) \
+                and isinstance(e.comparators[0], ast.Constant) and e.comparators[0].value is None and not pol:
+            try:
+                ds = flow.reaching(node, e.left.id)
+            except KeyError:
+                ds = []
+            # (a definition `x = None` cannot be the one in force where x is not None)
+            ds = [d for d in ds if not (d.kind == "assign" and isinstance(d.value, ast.Constant) and d.value.value is None)]
+            if len(ds) == 1 and ds[0].kind == "assign" and isinstance(ds[0].value, ast.IfExp):
+                v = ds[0].value
+                isnone = lambda x: isinstance(x, ast.Constant) and x.value is None
+                if isnone(v.body) and not isnone(v.orelse):
+                    add(v.test, False)
+                elif isnone(v.orelse) and not isnone(v.body):
+                    add(v.test, True)
+    return out
